@@ -111,7 +111,7 @@ def gen_tree(rng, odd):
         top = gen_project(rng, "", 0, budget, odd)
     else:
         top = {"k": "dir", "name": "", "ch": gen_children(rng, 1, budget, odd)}
-    nlinks = rng.choice([0, 0, 1, 2])
+    nlinks = rng.choice([0, 0, 0, 0, 1, 2])
     links = [{"seed": rng.randint(0, 10 ** 6), "abs": rng.random() < 0.4} for _ in range(nlinks)]
     return {"top": top, "links": links, "qseed": rng.randint(0, 10 ** 9), "odd": odd}
 
@@ -520,7 +520,7 @@ def run_case(desc):
         if o["res"][0] in ("root", "job"):
             o["res"] = [o["res"][0], "<T>" + o["res"][1][len(root):]] + list(o["res"][2:])
         o["diff"] = [[a, b, (c if isinstance(c, str) else c.hex())] for a, b, c in o["diff"]]
-    return Case(coq, desc, obs={"queries": len(obs), "by_kind": hist, "sample": obs[:40]},
+    return Case(coq, desc, obs={"queries": len(obs), "by_kind": hist, "sample": obs[:200]},
                 nontrivial=(nproj >= 2 or njobs > 0), key=json.dumps(t, sort_keys=True),
                 kinds=kinds + ["nested-projects" if nproj >= 2 else "single-or-none"])
 
